@@ -410,3 +410,31 @@ def _c10_lru(rep, tier: str) -> None:
                 rep.witness({'clause': 'lru:' + cl, 'type_kind': f'KeyCache(maxsize={m})', 'value_kind': evs[i]['a'], 'outcome': evs[i].get('raised', '')},
                             {'history': desc[i]['history'][-20:], 'event': evs[i]})
     rep.extra['lru_replay'] = total
+
+
+C14_CLAUSES = {'signature-binding', 'argument-not-converted-as-from-data', 'hook-failure-not-raised', 'post-init-run-count',
+               'construction-refused', 'set-field-record', 'constructed-value', 'factory-stored-uncalled',
+               'default-shared-between-instances', 'unchecked-not-verbatim', 'must-accept', 'must-reject', 'image',
+               'foreign-exception'}
+CONSTRUCT_CFGS = {'quick': 'MC_Grammar_construct_q.cfg', 'thorough': 'MC_Grammar_construct_t.cfg'}
+
+
+@check('C14')
+def c14(tier: str) -> int:
+    rep = Report('C14', tier)
+    rep.exhaustive = True
+    res = engine.model_check('MC_Grammar', CONSTRUCT_CFGS[tier], dump=True)
+    rep.add_mc(res, CONSTRUCT_CFGS[tier])
+    states = engine.dump_states(res)
+    cons = [(st['ty'], st['val'], 0) for st in states if st.get('ph') == 'ctor']
+    cases = [(st['ty'], st['val'], 0) for st in states if st.get('ph') == 'case' and st['ty']['k'] == 'cls']
+    st1 = pipeline.run_events(rep, cons, C14_CLAUSES, label='c14-ctor', make_event=conv.ev_construct, reverse=False)
+    st2 = pipeline.run_events(rep, cases, C14_CLAUSES, label='c14-data', make_event=conv.ev_created, reverse=False,
+                              child_event=conv.ev_from_data)
+    rep.extra['replay'] = {'constructions': st1, 'data_paths': st2}
+    rep.assumptions += ['classes of the generated family (one per feature of the default / layout / naming rules)',
+                        'object identity of default products observed with `is` / id() on objects kept alive for the run']
+    return rep.finish()
+
+
+_EVENT_MAKERS.update({'construct': conv.ev_construct, 'created': conv.ev_created})
